@@ -233,6 +233,8 @@ var $internalize = (v, t, recv, seen, makeWrapper) => {
         case $kindUint64:
             return new t(0, v);
         case $kindFloat32:
+            // A float32 variable only ever holds values of float32 precision.
+            return $fround(typeof v === "number" ? v : parseFloat(v));
         case $kindFloat64:
             // parseFloat goes through a string and would lose the sign of -0.
             return typeof v === "number" ? v : parseFloat(v);
